@@ -514,6 +514,18 @@ def apply_op(hist, op, idx, **kw):
         if hist.disk.data:
             hist.disk.last = max(hist.disk.last, max(t for _, t in hist.disk.data.values()))
         hist.disk.now = max(hist.disk.now, hist.disk.last - hist.epoch + hist.disk.tickv)
+    elif k == "future":
+        # a stored value whose modified time is ahead of every clock (skewed writer, touched file): times are instants,
+        # nothing the property says depends on "now"
+        name = op["store"]
+        if name in hist.disk.data:
+            v, _ = hist.disk.data[name]
+            t = round(max(hist.disk.last, hist.epoch + hist.disk.now) + 10 * 365 * 86400.0, 6)
+            hist.disk.data[name] = (v, t)
+            hist.disk.last = t
+            alias = hist.world["stores"].get(name, {})
+            if alias.get("feeds") and alias.get("alias") and alias["feeds"] in hist.disk.data:
+                hist.disk.data[alias["feeds"]] = (hist.disk.data[alias["feeds"]][0], t)
     elif k == "fresh_at":
         # fresh_time := exactly the modified time of one stored value (a tie: that value is not "older than" fresh_time)
         t = hist.disk.mtime(op["store"])
